@@ -61,6 +61,15 @@ struct TypeTagStorage {
 	const std::type_info & type() const { return *t; }
 };
 
+// plain-data storage whose == is coarser than its bytes (case-insensitive letter), and whose < returns int (legacy style, bool-convertible)
+struct PodStorage {
+	char letter; int pad;
+	PodStorage() : letter(0), pad(0) {}
+	template <typename T> PodStorage(const T & t) : letter(static_cast<char>(t)), pad(1) {}
+	bool operator == (const PodStorage & o) const { return (letter | 0x20) == (o.letter | 0x20); }
+	int operator < (const PodStorage & o) const { return (letter | 0x20) < (o.letter | 0x20); }
+};
+
 // a digester whose result is not a std::size_t: digests must be compared as what they are
 template <typename T> struct DigestDouble { double operator()(const T & v) const { return static_cast<double>(std::hash<T>()(v) % 1000) / 1000.0; } };
 
@@ -203,6 +212,11 @@ void useUtils()
 		(void)(ta == tb); (void)(ta < tb); (void)std::hash<IdT>()(ta);
 		eventpp::EventDispatcher<IdT, void (), PoliciesMapOrdered> dt; dt.appendListener(3, []() {}); dt.dispatch(IdT(3L));
 		eventpp::EventDispatcher<IdT, void ()> dt2; dt2.appendListener(3, []() {}); dt2.dispatch(IdT(3L));
+		using IdP = eventpp::AnyId<std::hash, PodStorage>;
+		IdP pa('q'), pb('Q');
+		(void)(pa == pb); (void)(pa < pb); (void)std::hash<IdP>()(pa);
+		eventpp::EventDispatcher<IdP, void (), PoliciesMapOrdered> dp; dp.appendListener('q', []() {}); dp.dispatch(IdP('Q'));
+		eventpp::EventDispatcher<IdP, void ()> dp2; dp2.appendListener('q', []() {}); dp2.dispatch(IdP('Q'));
 		using IdD = eventpp::AnyId<DigestDouble, ValueStorage>;
 		IdD da(1), db(2);
 		(void)(da == db); (void)(da < db); (void)std::hash<IdD>()(da);
